@@ -54,6 +54,28 @@ def main():
                 wrap(name)
     except Exception:
         pass
+    # PWM / digital levels the host classes command, per pin (P:<pin>:<level>): every Led change goes through set_brightness, every RGBLed
+    # change through set_color
+    try:
+        import Reduino.Actuators  # noqa: F401
+        LedC = sys.modules["Reduino.Actuators.Led"].Led
+        RgbC = sys.modules["Reduino.Actuators.RGBLed"].RGBLed
+        _sb, _sc = LedC.set_brightness, RgbC.set_color
+
+        def set_brightness(self, value):
+            r = _sb(self, value)
+            out.append("P:%s:%d" % (self.pin, self.brightness))
+            return r
+
+        def set_color(self, red, green, blue):
+            r = _sc(self, red, green, blue)
+            for pin, level in zip(self.pins, self.get_color()):
+                out.append("P:%s:%d" % (pin, level))
+            return r
+        LedC.set_brightness = set_brightness
+        RgbC.set_color = set_color
+    except Exception:
+        pass
     state = {"k": 0}
     passes = job["passes"]
 
